@@ -4,6 +4,7 @@ import Complgen.Model.Pipeline
 import Complgen.Model.Parse
 import Complgen.Model.Dot
 import Complgen.Model.BashRt
+import Complgen.Model.BashRtCalls
 import Complgen.Cert.Search
 import Complgen.Cert.Canon
 import Complgen.Cert.Det
@@ -163,7 +164,11 @@ def bashrtOne (S : BashRt.Script) (start : Nat) (cl : String) : String :=
   match (cl.splitOn ",").mapM Hex.decode with
   | some (wb :: rest) =>
     match rest.reverse with
-    | p :: wsRev => optListText (BashRt.complete S start wsRev.reverse p wb)
+    | p :: wsRev =>
+      let r := BashRt.completeL S start wsRev.reverse p wb
+      let calls := if r.2.isEmpty then "E" else
+        ",".intercalate (r.2.map fun c => s!"{c.1}/{Hex.encode c.2.1}/{Hex.encode c.2.2}")
+      optListText r.1 ++ "#" ++ calls
     | [] => "bad-cmdline"
   | _ => "bad-cmdline"
 
